@@ -23,6 +23,7 @@ type SpecEnv struct {
 	cur    *State
 	old    *State
 	reach  Term
+	bound  map[string]SVal // quantifier variables, results, pure-function parameters (highest priority)
 	locals bool // identifiers may refer to local cells of x.fn (loop invariants, asserts)
 	depth  int
 	header *ssa.BasicBlock
@@ -33,8 +34,9 @@ func (x *Exec) specEnv(cur *State, extra map[string]SVal) *SpecEnv {
 	for k, v := range x.params {
 		vars[k] = v
 	}
+	bound := map[string]SVal{}
 	for k, v := range extra {
-		vars[k] = v
+		bound[k] = v
 	}
 	var pkg *types.Package
 	if x.fn.Pkg != nil {
@@ -47,19 +49,27 @@ func (x *Exec) specEnv(cur *State, extra map[string]SVal) *SpecEnv {
 			pkg = p
 		}
 	}
-	return &SpecEnv{u: x.u, x: x, pkg: pkg, vars: vars, cur: cur, old: x.entry, reach: x.curBlockReach, locals: true}
+	return &SpecEnv{u: x.u, x: x, pkg: pkg, vars: vars, bound: bound, cur: cur, old: x.entry, reach: x.curBlockReach, locals: true}
 }
 
 func (e *SpecEnv) with(vars map[string]SVal) *SpecEnv {
 	n := *e
-	n.vars = map[string]SVal{}
-	for k, v := range e.vars {
-		n.vars[k] = v
+	n.bound = map[string]SVal{}
+	for k, v := range e.bound {
+		n.bound[k] = v
 	}
 	for k, v := range vars {
-		n.vars[k] = v
+		n.bound[k] = v
 	}
 	return &n
+}
+
+func (e *SpecEnv) isBound(name string) bool {
+	if _, ok := e.bound[name]; ok {
+		return true
+	}
+	_, ok := e.vars[name]
+	return ok
 }
 
 func (e *SpecEnv) EvalBool(s *SExpr) (t Term, err error) {
@@ -238,13 +248,16 @@ func (e *SpecEnv) ident(name string) SVal {
 	case "$visited", "$n":
 		return e.mapIterVar(name)
 	}
-	if v, ok := e.vars[name]; ok {
+	if v, ok := e.bound[name]; ok {
 		return v
 	}
 	if e.locals && e.x != nil {
 		if v, ok := e.localCell(name); ok {
 			return v
 		}
+	}
+	if v, ok := e.vars[name]; ok {
+		return v
 	}
 	// package-level objects
 	if e.pkg != nil {
@@ -480,7 +493,7 @@ func (e *SpecEnv) field(s *SExpr) SVal {
 	w := e.u.W
 	// package-qualified identifier?
 	if id := s.Args[0]; id.Kind == "ident" {
-		if _, bound := e.vars[id.Name]; !bound {
+		if !e.isBound(id.Name) {
 			if p := e.importedPkg(id.Name); p != nil {
 				obj := p.Scope().Lookup(s.Name)
 				if c, ok := obj.(*types.Const); ok {
@@ -730,7 +743,7 @@ func (e *SpecEnv) call(s *SExpr) SVal {
 			// held(mu-expression-text): lock ghost
 			e.fail("held() not supported here")
 		}
-		if _, bound := e.vars[fnx.Name]; !bound {
+		if !e.isBound(fnx.Name) {
 			if pf, ok := e.u.eng.cs.Pures[fnx.Name]; ok {
 				evalArgs()
 				return e.applyPure(pf, args)
@@ -748,7 +761,7 @@ func (e *SpecEnv) call(s *SExpr) SVal {
 	if fnx.Kind == "field" {
 		// pkg.Func(...) or recv.Method(...)
 		if id := fnx.Args[0]; id.Kind == "ident" {
-			if _, bound := e.vars[id.Name]; !bound {
+			if !e.isBound(id.Name) {
 				if p := e.importedPkg(id.Name); p != nil {
 					evalArgs()
 					if f, ok := p.Scope().Lookup(fnx.Name).(*types.Func); ok {
@@ -845,7 +858,8 @@ func (e *SpecEnv) applyPure(pf *PureFunc, args []SVal) SVal {
 	}
 	n := pe.with(nil)
 	// pure function bodies see only their parameters (plus heaps)
-	n.vars = vars
+	n.bound = vars
+	n.vars = map[string]SVal{}
 	n.locals = false
 	n.depth = e.depth + 1
 	return n.eval(pf.Body)
@@ -883,7 +897,7 @@ func (e *SpecEnv) frameItem(item string) (res []FrameItem, err error) {
 		case *types.Slice:
 			s := v.T
 			return []FrameItem{{heap: heapName(t.Elem()), text: item, pred: func(p Term) Term {
-				return And(Eq(PBase(p), PBase(SlPtr(s))), Ge(PIdx(p), PIdx(SlPtr(s))), Lt(PIdx(p), Add(PIdx(SlPtr(s)), SlCap(s))), Not(Eq(PBase(p), IntLit(0))))
+				return And(Eq(PBase(p), PBase(SlPtr(s))), Ge(PIdx(p), PIdx(SlPtr(s))), Lt(PIdx(p), Add(PIdx(SlPtr(s)), SlCap(s))))
 			}}}, nil
 		case *types.Map:
 			md, mv, mc, _, _ := mapHeaps(w, t)
